@@ -1,5 +1,9 @@
 import HabuVerif.Proofs.CliLemmas
 import HabuVerif.Proofs.FieldsLemmas
+import HabuVerif.Proofs.C14Decimal
+import HabuVerif.Gen.Catalogue2021
+import HabuVerif.Gen.Catalogue2022
+import HabuVerif.Gen.Catalogue2023
 /-!
 # C14 — A written solution reads back to exactly the values that were solved
 
@@ -36,10 +40,8 @@ theorem bool_reads_back (hT : AsciiCompat T) (b : Bool) (s : PyStr.Text)
     (h : Fields.toString T ops .bool (.bool b) = .ok s) : fromString T ops .bool s = .ok (.bool b) :=
   fromString_toString_bool T ops hT b s h
 
-/-- … and money (a value rounded to the line's places) reads back exactly, PROVIDED the decimal
-text `'%.nf' % x` parses back to `x` — true for the correctly rounded `'%.nf'` / `float()` pair on
-rounded values of ordinary magnitude; this hypothesis is validated by the `f64` and `fields`
-streams (bit-exact), not proved (`…_partial`). -/
+/-- … and money reads back under two hypotheses about the float carrier (kept for an abstract
+carrier `F`; for binary64 they are THEOREMS, see `money_reads_back` below). -/
 theorem money_reads_back_partial (p : Nat) (x : F)
     (hidem : ∀ y n, ops.roundN (ops.roundN y n) n = ops.roundN y n)
     (hparse : ∃ d, parseFloatLit T (ops.fmt (ops.roundN x p) p) = some d ∧
@@ -49,8 +51,60 @@ theorem money_reads_back_partial (p : Nat) (x : F)
   fromString_toString_float T ops p x hidem hparse s h
 
 end values
+
+section binary64
+open HabuVerif.Fields HabuVerif.Inputs HabuVerif.PyStr HabuVerif.Dsl
+variable (T : CharTable)
+
+/-- **Money reads back, for binary64, with no hypothesis on the value.**  For the bit-exact model of
+CPython's `round(x, p)`, `f'{v:.{p}f}'` and `float(s)` (`Py/F64.lean`, `Py/Str.lean`, compared with
+CPython bit for bit by the `f64` and `fields` streams) and every double `x` (any magnitude, ±0.0,
+inf, nan): the text written for the stored value `round(x, p)` reads back
+(`round(float(text), p)`) as exactly that stored value — for the places habutax uses, 0, 2 and 5
+(`catalogue_places_*` below shows on every run that these are all). -/
+theorem money_reads_back (p : Nat) (hp : p = 0 ∨ p = 2 ∨ p = 5) (x : F64) (text : PyStr.Text)
+    (h : Fields.toString T f64Ops (.float p) (.float (f64Ops.roundN x p)) = .ok text) :
+    fromString T f64Ops (.float p) text = .ok (.float (f64Ops.roundN x p)) :=
+  C14Decimal.money_reads_back T p hp x text h
+
+/-- **Whatever a float line stores reads back**: if `FloatField.value` (type guard, blank
+convention, rounding) produced `w`, then `to_string` succeeds and `from_string` of its text is `w`. -/
+theorem stored_money_reads_back (p : Nat) (hp : p = 0 ∨ p = 2 ∨ p = 5) (v w : PyVal F64)
+    (hv : fieldValue T f64Ops (.float p) v = .ok w) :
+    ∃ text, Fields.toString T f64Ops (.float p) w = .ok text ∧
+      fromString T f64Ops (.float p) text = .ok w :=
+  C14Decimal.stored_money_reads_back T p hp v w hv
+
+/-- the decimal places of every float line of a year's catalogue are 0, 2 or 5 -/
+def placesOK (y : YearDecl) : Bool :=
+  y.classes.all fun c => c.lines.all fun l =>
+    match l.kind with
+    | .float p => p == 0 || p == 2 || p == 5
+    | _ => true
+
+/-- regenerated from /repo on every run -/
+theorem catalogue_places_2021 : placesOK Gen.year2021 = true := by decide +kernel
+theorem catalogue_places_2022 : placesOK Gen.year2022 = true := by decide +kernel
+theorem catalogue_places_2023 : placesOK Gen.year2023 = true := by decide +kernel
+
+theorem placesOK_spec (y : YearDecl) (h : placesOK y = true) (c : ClassDecl) (hc : c ∈ y.classes)
+    (l : LineDecl) (hl : l ∈ c.lines) (p : Nat) (hk : l.kind = .float p) : p = 0 ∨ p = 2 ∨ p = 5 := by
+  unfold placesOK at h
+  have h1 := (List.all_eq_true.mp h) c hc
+  have h2 := (List.all_eq_true.mp h1) l hl
+  simp only [hk] at h2
+  simp only [Bool.or_eq_true, beq_iff_eq] at h2
+  omega
+
+end binary64
 end HabuVerif.C14
 
 #print axioms HabuVerif.C14.solution_reads_back
 #print axioms HabuVerif.C14.bool_reads_back
 #print axioms HabuVerif.C14.money_reads_back_partial
+#print axioms HabuVerif.C14.money_reads_back
+#print axioms HabuVerif.C14.stored_money_reads_back
+#print axioms HabuVerif.C14.catalogue_places_2021
+#print axioms HabuVerif.C14.catalogue_places_2022
+#print axioms HabuVerif.C14.catalogue_places_2023
+#print axioms HabuVerif.C14.placesOK_spec
